@@ -112,7 +112,7 @@ def corrupt_text(rng, s):
 
 
 META_BITS = ['::id 1', '::snt a b', '::k', '::k  v', ':: v', '::', '::a::b', ':::c', '::date 2012-12-23',
-             '::x\ty', '::tok ( ) / : ~ "', '::u \u2028z', '::e \xa0', '::alignments 0-1 1-2', 'plain', '::nfd cafe\u0301 \u212b',
+             '::x\ty', '::tok ( ) / : ~ "', '::u \u2028z', '::e \xa0', '::alignments 0-1 1-2', 'plain', '::nfd cafe\u0301 \u212b', '::annotator None', '::n 0',
              ';; note', '::k: v:', '::url http://x/y::z']
 META_GAPS = [' ', '  ', '   ', '\t', ' \t ', '']
 
@@ -144,3 +144,53 @@ def insert_at_token_boundary(rng, s, k=1):
         ch = rng.choice(['#', '#', '#', '"', '~', ':', '/', '(', ')', '\\', '^', ','])
         lines[li] = lines[li][:at] + ch + lines[li][at:]
     return '\n'.join(lines)
+
+
+# ---------------------------------------------------------------- characters nobody thought of
+NAME_EXCLUDED = set(' \t\n\r\x0b\x0c()/:~"')
+
+
+def rand_char(rng, allow=()):
+    """a code point drawn from all of Unicode (ASCII 55%, Latin 15%, rest of the BMP 25%, astral 5%)
+    that may occur in a name: not one of the six ASCII blanks, not ( ) / : ~ ", no surrogate"""
+    while True:
+        x = rng.random()
+        if x < .55:
+            cp = rng.randrange(0x21, 0x7f)
+        elif x < .7:
+            cp = rng.randrange(0xa0, 0x250)
+        elif x < .95:
+            cp = rng.randrange(0x250, 0xfffe)
+        else:
+            cp = rng.randrange(0x10000, 0x1fa00)
+        if 0xd800 <= cp <= 0xdfff:
+            continue
+        ch = chr(cp)
+        if ch in NAME_EXCLUDED and ch not in allow:
+            continue
+        return ch
+
+
+def rand_symbol(rng, maxlen=4):
+    """a grammar-valid symbol (NameChar+) over all of Unicode; never starts a comment"""
+    while True:
+        sym = ''.join(rand_char(rng) for _ in range(rng.randrange(1, maxlen + 1)))
+        if not sym.startswith('#'):
+            return sym
+
+
+def rand_role(rng):
+    """':' + name characters; never ends in -of (that would make it an inverted role)"""
+    while True:
+        r = ':' + ''.join(rand_char(rng) for _ in range(rng.randrange(1, 4)))
+        if r[1] != '#':      # (in the triple-conjunction notation a role name that starts with # would open a comment)
+            return r + 'x' if r.endswith('-of') else r
+
+
+def rand_value(rng, maxlen=10):
+    """a metadata value: any characters but line ends, no '::', no leading/trailing blank"""
+    while True:
+        v = ''.join(rand_char(rng, allow=' \t()/:~"') for _ in range(rng.randrange(1, maxlen + 1)))
+        v = v.strip(' \t\x0b\x0c')
+        if v and '::' not in v and v == v.strip():
+            return v
